@@ -12,9 +12,13 @@ pub(crate) fn prune_journal(
     for event in reader {
         let mut event = event?;
         let event = match &mut event.payload {
-            EventPayload::WorkerConnected(worker_id, _)
-            | EventPayload::WorkerLost(worker_id, _) => {
+            EventPayload::WorkerConnected(worker_id, _) => {
                 live_worker_ids.contains(worker_id).then_some(event)
+            }
+            EventPayload::WorkerLost(worker_id, reason) => {
+                // Losses caused by a failure have to be kept: the crash counters of the
+                // unfinished tasks are restored from them
+                (live_worker_ids.contains(worker_id) || reason.is_failure()).then_some(event)
             }
             EventPayload::WorkerOverviewReceived(overview) => {
                 live_worker_ids.contains(&overview.id).then_some(event)
